@@ -1028,3 +1028,59 @@ def rule_cursor_advanced_by_copy(ctx):
                                          (ln, render(cur), ("changed by `%s`" % wrong[:60]) if wrong else "not advanced"))
     ctx.floor("CURSORADV", 4, n, "(copies through a cursor field)")
     return n
+
+
+# ---------------------------------------------------------------------------------------------------------------------
+def rule_last_block_needs_no_successor(ctx):
+    """LASTBLOCK (C02): HLgetdatainfo reports offset and length of every data block of a linked-block element.  All blocks are full
+    except the last one of the *element*, whose real length is `total_length - <length accumulated so far>`.  A block is the last
+    of the element only if its block table has no successor table (`nextref == 0`); the last slot of a table that has a successor
+    is an ordinary full block.  The statement that replaces a block's length by `total - accumulated` must therefore sit under a
+    test of the table's `nextref`; without it every table's last block of a multi-table element gets a wrong (even negative)
+    length."""
+    prog = ctx.prog
+    f = prog.func("HLgetdatainfo")
+    if f is None or not f.raw.get("ast"):
+        ctx.unrecognised("LASTBLOCK", "LASTBLOCK:HLgetdatainfo", "-", "HLgetdatainfo not found")
+        return 0
+    # locals loaded from the `nextref` field
+    nxt = set()
+    for _b, _i, _s, x in f.nodes(True):
+        if x[0] == "decl":
+            for d in x[1]:
+                if d[2] is not None and (mem_field(d[2]) or (0, 0))[1] == "nextref":
+                    nxt.add(d[0])
+        elif x[0] == "asg" and x[1] == "=" and kind(strip(x[2])) == "var" and (mem_field(x[3]) or (0, 0))[1] == "nextref":
+            nxt.add(strip(x[2])[1])
+    accum = set()
+    for _b, _i, _s, x in f.nodes(True):
+        if x[0] == "asg" and kind(strip(x[2])) == "var":
+            v = strip(x[2])[1]
+            if x[1] == "+=" or (x[1] == "=" and kind(strip(x[3])) == "bin" and strip(x[3])[1] == "+" and any(y[0] == "var" and y[1] == v for y in walk(x[3], True))):
+                accum.add(v)
+    sites = []
+
+    def vis(nd, st):
+        if nd[0] == "s":
+            for x in walk(nd[1], True):
+                if x[0] == "asg" and x[1] == "=" and kind(strip(x[3])) == "bin" and strip(x[3])[1] == "-" and kind(strip(strip(x[3])[3])) == "var" and strip(strip(x[3])[3])[1] in accum:
+                    sites.append((nd, list(st)))
+        return True
+
+    ast_walk(f.raw["ast"], vis)
+    n = 0
+    for nd, st in sites:
+        n += 1
+        key = "LASTBLOCK:HLgetdatainfo#%d" % n
+        ok = False
+        for s_ in st:
+            if s_[0] == "if":
+                for y in walk(s_[1], True):
+                    if (y[0] == "var" and y[1] in nxt) or (y[0] == "mem" and y[2] == "nextref"):
+                        ok = True
+        if ok:
+            ctx.holds("LASTBLOCK", key, f.where(node_line(nd)), "the 'total - accumulated' length is used only under a test of the table's successor link", nontrivial=True)
+        else:
+            ctx.violated("LASTBLOCK", key, f.where(node_line(nd)), "a block's length is replaced by `total - accumulated` without a test of the table's `nextref`: the last slot of every table that has a successor is taken for the last block of the element")
+    ctx.floor("LASTBLOCK", 1, n, "(corrections of a block length from the element total)")
+    return n
